@@ -442,8 +442,8 @@ impl Monitor for C10 {
         N_DIRECTED
             + match t {
                 Tier::Tiny => 10,
-                Tier::Quick => 8_000,
-                Tier::Thorough => 120_000,
+                Tier::Quick => 32000,
+                Tier::Thorough => 384000,
             }
     }
     fn rule(&self) -> &'static str {
